@@ -19,11 +19,11 @@ import re, hashlib
 
 
 class Fn:
-    __slots__ = ('name', 'params', 'ret_ty', 'locals', 'blocks', 'sha', 'kind', 'line', 'vname', 'sig')
+    __slots__ = ('name', 'params', 'ret_ty', 'locals', 'blocks', 'sha', 'kind', 'line', 'vname', 'sig', 'vsig')
 
     def __init__(self, name, kind):
         self.name = name; self.kind = kind; self.params = []; self.ret_ty = None
-        self.locals = {}; self.blocks = {}; self.sha = None; self.line = 0; self.vname = None; self.sig = ''
+        self.locals = {}; self.blocks = {}; self.sha = None; self.line = 0; self.vname = None; self.sig = ''; self.vsig = ''
 
 
 class Program:
@@ -423,6 +423,7 @@ def parse_program(text, verbose_text=None):
             vm = _hdr_re.match(vlines[i])
             if vm:
                 vr = vm.group(2)
+                fn.vsig = vr
                 fn.vname = vr[:(vr.index('(') if not vr.startswith('<') else _fn_name_end(vr))] if kind == 'fn' else vr[:_top_colon(vr) or len(vr)]
         cur = None
         cur_lines = None
